@@ -93,11 +93,13 @@ Unparse(t) ==
          IN pl \o <<Spell(t.op)>> \o pr
 
 \* ---------------------------------------------------------------------------
+\* integer literals that may stand where an integer operand stands
+LitVal == ("1" :> 1) @@ ("2" :> 2)
 \* evaluation: result <<ok, value>>, booleans as 0/1; ok = FALSE is a run-time panic
 B2I(b) == IF b THEN 1 ELSE 0
 RECURSIVE Eval(_, _)
 Eval(t, env) ==
-    IF t.k = "v" THEN <<TRUE, env[t.name]>>
+    IF t.k = "v" THEN <<TRUE, IF t.name \in DOMAIN LitVal THEN LitVal[t.name] ELSE env[t.name]>>
     ELSE IF t.k = "u" THEN
         LET x == Eval(t.x, env) IN
         IF ~x[1] THEN x
@@ -121,12 +123,14 @@ Eval(t, env) ==
 Envs == << [a |-> 7,  b |-> -3, c |-> 2, d |-> 5,  e |-> -6, p |-> 1, q |-> 0, r |-> 1, s |-> 0, t |-> 1],
            [a |-> -8, b |-> 3,  c |-> 1, d |-> -2, e |-> 9,  p |-> 0, q |-> 1, r |-> 1, s |-> 0, t |-> 0],
            [a |-> 1,  b |-> 2,  c |-> 3, d |-> 4,  e |-> 5,  p |-> 0, q |-> 0, r |-> 1, s |-> 1, t |-> 0],
-           [a |-> 100, b |-> 0, c |-> -1, d |-> 31, e |-> 2, p |-> 1, q |-> 1, r |-> 0, s |-> 0, t |-> 1] >>
+           [a |-> 100, b |-> 0, c |-> -1, d |-> 31, e |-> 2, p |-> 1, q |-> 1, r |-> 0, s |-> 0, t |-> 1],
+           \* the ends of the int32 range
+           [a |-> 2147483647, b |-> Min32, c |-> 2147483647, d |-> 1, e |-> -1, p |-> 1, q |-> 0, r |-> 0, s |-> 1, t |-> 1] >>
 
 \* ---------------------------------------------------------------------------
 \* reference parser: precedence climbing over the token string (what the Go specification's grammar
 \* prescribes); MC_GoExpr checks Parse(Unparse(t)) = t for every enumerated tree
-NameTy(n) == IF n \in {"a", "b", "c", "d", "e"} THEN "int" ELSE "bool"
+NameTy(n) == IF n \in {"a", "b", "c", "d", "e"} \cup DOMAIN LitVal THEN "int" ELSE "bool"
 BinPrec(tk) == IF tk \in {"==", "!="} THEN 3 ELSE Prec(tk)
 RECURSIVE PUnary(_, _), PBin(_, _, _), PLoop(_, _, _, _)
 PUnary(s, i) ==
